@@ -33,8 +33,9 @@ RCP<const Basic> ComplexDouble::conjugate() const
 hash_t ComplexDouble::__hash__() const
 {
     hash_t seed = SYMENGINE_COMPLEX_DOUBLE;
-    hash_combine<double>(seed, i.real());
-    hash_combine<double>(seed, i.imag());
+    // -0.0 == 0.0 (see __eq__): equal objects must hash alike
+    hash_combine<double>(seed, i.real() == 0.0 ? 0.0 : i.real());
+    hash_combine<double>(seed, i.imag() == 0.0 ? 0.0 : i.imag());
     return seed;
 }
 
